@@ -267,8 +267,21 @@ fn files(tier: Tier) -> Vec<FileCase> {
                         grids.push((format!("1sp:{pi}:{si}"), g.clone()));
                         // two special cells (thorough: all pairs; quick: same special in the next position)
                         for (pj, &(r2, c2)) in positions.iter().enumerate().skip(pi + 1) {
-                            let range: Vec<usize> = if tier.is_thorough() { (0..specials.len()).collect() } else { vec![si, (si + 5) % specials.len()] };
+                            // thorough: all pairs of positions x all pairs of specials for grids of <= 6 cells; for the larger
+                            // grids neighbouring positions (next cell, cell below) x 3 partner specials (the full product is
+                            // ~10^8 reads); quick: the same special in the next position
+                            let big = positions.len() > 6;
+                            let range: Vec<usize> = if tier.is_thorough() && !big {
+                                (0..specials.len()).collect()
+                            } else if tier.is_thorough() {
+                                vec![si, (si + 5) % specials.len(), (si + 9) % specials.len()]
+                            } else {
+                                vec![si, (si + 5) % specials.len()]
+                            };
                             if !tier.is_thorough() && pj != pi + 1 {
+                                continue;
+                            }
+                            if tier.is_thorough() && big && pj != pi + 1 && pj != pi + cols {
                                 continue;
                             }
                             for sj in range {
